@@ -4,6 +4,7 @@ import (
 	"fmt"
 
 	"github.com/smartcontractkit/chainlink-data-streams/llo"
+	mv1 "github.com/smartcontractkit/chainlink-data-streams/mercury/v1"
 )
 
 // cmdConsts prints the exported constants the theorems are stated over, as compiled from /repo now.
@@ -15,4 +16,5 @@ func cmdConsts() {
 	z("MaxObservationStreamValuesLength", int64(llo.MaxObservationStreamValuesLength))
 	z("MaxStreamsPerChannel", int64(llo.MaxStreamsPerChannel))
 	z("MaxOutcomeChannelDefinitionsLength", int64(llo.MaxOutcomeChannelDefinitionsLength))
+	z("MaxAllowedBlocks", int64(mv1.MaxAllowedBlocks))
 }
